@@ -5,6 +5,7 @@ package main
 
 import (
 	"fmt"
+	"go/constant"
 	"go/token"
 	"go/types"
 	"sort"
@@ -778,61 +779,369 @@ func waitsForReaders(f *ssa.Function) bool {
 // c03Encoding: the bit-field accessors of counterStateBits mean what the protocol rules take
 // them to mean (the rules above reason with readers()/locked()/havePtr()/extra() as names).
 // Layout: readers = low 30 bits, all ones = locked; bit 30 = havePtr; bits 31..63 = extra.
+//
+// The accessors are bitwise expressions over the word b and constants (and, or, xor, and-not,
+// not, shifts by constants, width-preserving conversions), possibly compared with a constant.
+// For this fragment equivalence is decidable bit by bit: every result bit is 0, 1, an input
+// bit or its complement; a comparison is a conjunction of "input bit k is c" (or its negation).
+// The rule computes that normal form of the accessor's body and compares it with the normal
+// form of the documented layout — any equivalent way of writing the accessor is accepted
+// (b&mask^mask == 0 for b&mask == mask), any other meaning is not.
+type bitE struct {
+	kind int // 0: const 0, 1: const 1, 2: input bit, 3: complement of input bit
+	k    int
+}
+type bitWord [64]bitE
+
+func (m *Module) bitsOf(v ssa.Value, param *ssa.Parameter, depth int) (bitWord, bool) {
+	var w bitWord
+	if depth > 12 {
+		return w, false
+	}
+	v = strip(v)
+	if v == ssa.Value(param) {
+		for i := range w {
+			w[i] = bitE{2, i}
+		}
+		return w, true
+	}
+	if k, ok := v.(*ssa.Const); ok && k.Value != nil {
+		u, exact := constant.Uint64Val(constant.ToInt(k.Value))
+		if !exact {
+			if n, ok2 := constant.Int64Val(constant.ToInt(k.Value)); ok2 {
+				u = uint64(n)
+			} else {
+				return w, false
+			}
+		}
+		for i := range w {
+			w[i] = bitE{int(u >> uint(i) & 1), 0}
+		}
+		return w, true
+	}
+	switch x := v.(type) {
+	case *ssa.Convert:
+		return m.bitsOf(x.X, param, depth+1)
+	case *ssa.ChangeType:
+		return m.bitsOf(x.X, param, depth+1)
+	case *ssa.UnOp:
+		if x.Op == token.XOR { // ^x
+			a, ok := m.bitsOf(x.X, param, depth+1)
+			if !ok {
+				return w, false
+			}
+			for i := range a {
+				w[i] = notBit(a[i])
+			}
+			return w, true
+		}
+	case *ssa.BinOp:
+		a, ok1 := m.bitsOf(x.X, param, depth+1)
+		if !ok1 {
+			return w, false
+		}
+		switch x.Op {
+		case token.SHR, token.SHL:
+			n, isC := intConst(x.Y)
+			if !isC || n < 0 || n > 63 {
+				return w, false
+			}
+			for i := range w {
+				src := i + int(n)
+				if x.Op == token.SHL {
+					src = i - int(n)
+				}
+				if src >= 0 && src < 64 {
+					w[i] = a[src]
+				}
+			}
+			return w, true
+		case token.AND, token.OR, token.XOR, token.AND_NOT:
+			b, ok2 := m.bitsOf(x.Y, param, depth+1)
+			if !ok2 {
+				return w, false
+			}
+			for i := range w {
+				y := b[i]
+				if x.Op == token.AND_NOT {
+					y = notBit(y)
+				}
+				op := x.Op
+				if op == token.AND_NOT {
+					op = token.AND
+				}
+				r, ok := combineBits(a[i], y, op)
+				if !ok {
+					return w, false
+				}
+				w[i] = r
+			}
+			return w, true
+		}
+	}
+	return w, false
+}
+
+func notBit(b bitE) bitE {
+	switch b.kind {
+	case 0:
+		return bitE{1, 0}
+	case 1:
+		return bitE{0, 0}
+	case 2:
+		return bitE{3, b.k}
+	}
+	return bitE{2, b.k}
+}
+
+func combineBits(a, b bitE, op token.Token) (bitE, bool) {
+	// evaluate over the (at most one) input bit both depend on
+	if a.kind >= 2 && b.kind >= 2 && a.k != b.k {
+		return bitE{}, false
+	}
+	k := a.k
+	if a.kind < 2 {
+		k = b.k
+	}
+	ev := func(e bitE, in int) int {
+		switch e.kind {
+		case 0:
+			return 0
+		case 1:
+			return 1
+		case 2:
+			return in
+		}
+		return 1 - in
+	}
+	f := func(in int) int {
+		x, y := ev(a, in), ev(b, in)
+		switch op {
+		case token.AND:
+			return x & y
+		case token.OR:
+			return x | y
+		}
+		return x ^ y
+	}
+	r0, r1 := f(0), f(1)
+	switch {
+	case r0 == 0 && r1 == 0:
+		return bitE{0, 0}, true
+	case r0 == 1 && r1 == 1:
+		return bitE{1, 0}, true
+	case r0 == 0 && r1 == 1:
+		return bitE{2, k}, true
+	}
+	return bitE{3, k}, true
+}
+
+// bitPred: the normal form of "x == y" / "x != y" over bit words: pos ∧_k (input bit k == want[k]),
+// or its negation. ok=false when the comparison relates different input bits.
+type bitPred struct {
+	pos   bool
+	unsat bool
+	want  map[int]int
+}
+
+func predOf(a, b bitWord, eq bool) (bitPred, bool) {
+	p := bitPred{pos: eq, want: map[int]int{}}
+	for i := range a {
+		x, y := a[i], b[i]
+		if x.kind >= 2 && y.kind >= 2 {
+			if x.k != y.k {
+				return p, false
+			}
+			if x.kind != y.kind {
+				p.unsat = true
+			}
+			continue
+		}
+		if x.kind < 2 && y.kind < 2 {
+			if x.kind != y.kind {
+				p.unsat = true
+			}
+			continue
+		}
+		in, c := x, y
+		if x.kind < 2 {
+			in, c = y, x
+		}
+		need := c.kind // input bit (or its complement) must equal c
+		if in.kind == 3 {
+			need = 1 - need
+		}
+		if old, has := p.want[in.k]; has && old != need {
+			p.unsat = true
+		}
+		p.want[in.k] = need
+	}
+	// ¬(single bit == c) is (single bit == 1-c)
+	if !p.pos && !p.unsat && len(p.want) == 1 {
+		for k, v := range p.want {
+			p.want[k] = 1 - v
+		}
+		p.pos = true
+	}
+	return p, true
+}
+
+func (p bitPred) String() string {
+	if p.unsat {
+		return fmt.Sprintf("pos=%v unsat", p.pos)
+	}
+	var ks []int
+	for k := range p.want {
+		ks = append(ks, k)
+	}
+	sort.Ints(ks)
+	var sb strings.Builder
+	fmt.Fprintf(&sb, "pos=%v", p.pos)
+	for _, k := range ks {
+		fmt.Fprintf(&sb, " b%d=%d", k, p.want[k])
+	}
+	return sb.String()
+}
+
+func wordString(w bitWord) string {
+	var sb strings.Builder
+	for i := 63; i >= 0; i-- {
+		switch w[i].kind {
+		case 0:
+			sb.WriteByte('0')
+		case 1:
+			sb.WriteByte('1')
+		case 2:
+			if w[i].k == i {
+				sb.WriteByte('b')
+			} else {
+				fmt.Fprintf(&sb, "[b%d]", w[i].k)
+			}
+		default:
+			fmt.Fprintf(&sb, "[~b%d]", w[i].k)
+		}
+	}
+	return sb.String()
+}
+
 func c03Encoding(c *Ctx, m *Module) {
 	r := c.R
-	const K = "1073741823"           // 1<<30 - 1
-	const H = "1073741824"           // 1<<30
-	const E = "18446744071562067968" // 1<<64 - 1<<31
-	want := map[string][]string{
-		"readers":      {"conv<int>((param:b & " + K + "))"},
-		"locked":       {"((param:b & " + K + ") == " + K + ")"},
-		"havePtr":      {"((param:b & " + H + ") != 0)"},
-		"extra":        {"((param:b & " + E + ") >> 31)", "(conv<uint64>((param:b & " + E + ")) >> 31)"},
-		"incReader":    {"(param:b + 1)"},
-		"decReader":    {"(param:b - 1)"},
-		"setLocked":    {"(param:b | " + K + ")"},
-		"clearLocked":  {"(param:b &^ " + K + ")"},
-		"setHavePtr":   {"(param:b | " + H + ")"},
-		"clearHavePtr": {"(param:b &^ " + H + ")"},
-		"clearExtra":   {"(param:b &^ " + E + ")"},
+	// the documented layout, as words over the input b
+	mk := func(f func(i int) bitE) bitWord {
+		var w bitWord
+		for i := range w {
+			w[i] = f(i)
+		}
+		return w
 	}
-	var names []string
-	for k := range want {
-		names = append(names, k)
+	in := func(i int) bitE { return bitE{2, i} }
+	wantWord := map[string]bitWord{
+		"readers": mk(func(i int) bitE {
+			if i < 30 {
+				return in(i)
+			}
+			return bitE{0, 0}
+		}),
+		"extra": mk(func(i int) bitE {
+			if i+31 < 64 {
+				return in(i + 31)
+			}
+			return bitE{0, 0}
+		}),
+		"setLocked": mk(func(i int) bitE {
+			if i < 30 {
+				return bitE{1, 0}
+			}
+			return in(i)
+		}),
+		"clearLocked": mk(func(i int) bitE {
+			if i < 30 {
+				return bitE{0, 0}
+			}
+			return in(i)
+		}),
+		"setHavePtr": mk(func(i int) bitE {
+			if i == 30 {
+				return bitE{1, 0}
+			}
+			return in(i)
+		}),
+		"clearHavePtr": mk(func(i int) bitE {
+			if i == 30 {
+				return bitE{0, 0}
+			}
+			return in(i)
+		}),
+		"clearExtra": mk(func(i int) bitE {
+			if i >= 31 {
+				return bitE{0, 0}
+			}
+			return in(i)
+		}),
 	}
-	sort.Strings(names)
+	lockedWant := bitPred{pos: true, want: map[int]int{}}
+	for i := 0; i < 30; i++ {
+		lockedWant.want[i] = 1
+	}
+	wantPred := map[string]bitPred{
+		"locked":  lockedWant,
+		"havePtr": {pos: true, want: map[int]int{30: 1}},
+	}
+	names := []string{"clearExtra", "clearHavePtr", "clearLocked", "decReader", "extra", "havePtr", "incReader", "locked", "readers", "setHavePtr", "setLocked"}
 	for _, name := range names {
 		f := m.Func("internal/counter", "counterStateBits."+name)
-		got := "?"
+		var res ssa.Value
 		n := 0
 		for _, b := range f.Blocks {
 			if ret, ok := b.Instrs[len(b.Instrs)-1].(*ssa.Return); ok && len(ret.Results) == 1 {
 				n++
-				got = describe(ret.Results[0])
+				res = ret.Results[0]
 			}
 		}
-		ok := n == 1
-		if ok {
-			ok = false
-			for _, w := range want[name] {
-				if got == w || got == commuted(w) {
-					ok = true
+		ok, detail := false, "the accessor must be a single expression"
+		if n == 1 && len(f.Params) == 1 {
+			switch {
+			case name == "incReader" || name == "decReader":
+				bo, isB := strip(res).(*ssa.BinOp)
+				wantOp := token.ADD
+				if name == "decReader" {
+					wantOp = token.SUB
+				}
+				if isB && bo.Op == wantOp {
+					k, isC := intConst(bo.Y)
+					ok = strip(bo.X) == ssa.Value(f.Params[0]) && isC && k == 1
+					if !ok && wantOp == token.ADD {
+						k, isC = intConst(bo.X)
+						ok = strip(bo.Y) == ssa.Value(f.Params[0]) && isC && k == 1
+					}
+				}
+				detail = "want b ± 1; got " + describe(res)
+			case wantPred[name].want != nil:
+				bo, isB := strip(res).(*ssa.BinOp)
+				if isB && (bo.Op == token.EQL || bo.Op == token.NEQ) {
+					a, ok1 := m.bitsOf(bo.X, f.Params[0], 0)
+					b, ok2 := m.bitsOf(bo.Y, f.Params[0], 0)
+					if ok1 && ok2 {
+						if got, okP := predOf(a, b, bo.Op == token.EQL); okP {
+							ok = got.String() == wantPred[name].String()
+							detail = "want " + wantPred[name].String() + "; got " + got.String()
+						}
+					}
+				}
+				if !ok && detail == "the accessor must be a single expression" {
+					detail = "not a comparison of bitwise expressions over b: " + describe(res)
+				}
+			default:
+				if w, okW := m.bitsOf(res, f.Params[0], 0); okW {
+					ok = w == wantWord[name]
+					detail = "want " + wordString(wantWord[name]) + "; got " + wordString(w)
+				} else {
+					detail = "not a bitwise expression over b: " + describe(res)
 				}
 			}
 		}
-		r.Check("C03.locking", "counterStateBits."+name+" is the documented bit field", m.Pos(f.Pos()), ok, "want "+want[name][0]+"; got "+got)
+		r.Check("C03.locking", "counterStateBits."+name+" is the documented bit field", m.Pos(f.Pos()), ok, detail)
 	}
-}
-
-// commuted swaps the operands of the outermost "(a OP b)" of s for the commutative operators.
-func commuted(s string) string {
-	for _, op := range []string{" & ", " | ", " + ", " == ", " != "} {
-		if strings.HasPrefix(s, "(param:b"+op) && strings.HasSuffix(s, ")") {
-			rest := s[len("(param:b"+op) : len(s)-1]
-			return "(" + rest + op + "param:b)"
-		}
-	}
-	return s
 }
 
 // c03RetryReloads: a compare-and-swap that failed is tried again only with a state that was
